@@ -85,6 +85,26 @@ Theorem C09_nst_balance_change_uncached_refuted :
   failed (res_of (run nst_balance_change nst_change_bad_state)) = true /\
   tr_of (run nst_balance_change nst_change_bad_state) = ["oracle/nst_staker"; "assets/staker_asset"]%string.
 Proof. exact nst_balance_change_uncached_not_atomic. Qed.
+(* transactions that also write process memory (oracle aggregator context): the store part of a failed tx is always
+   reverted, the memory part behaves like the precompile wrapper - so the characterisation applies to it - and the
+   real CreatePrice tx [counted message, failing message] is refuted; failing at the first message is atomic *)
+Theorem C09_tx_store_reverted : forall (S : Type) (mem : string -> bool) (p : script S) (s : S),
+  failed (res_of (via_tx_mem mem p s)) = true -> forallb mem (tr_of (via_tx_mem mem p s)) = true.
+Proof. intros S mem p s. exact (via_tx_mem_only_memory mem p s). Qed.
+Theorem C09_tx_memory_is_precompile_wrapper : forall (S : Type) (p : script S) (s : S),
+  via_tx_mem (fun _ => true) p s = via_precompile p s.
+Proof. intros S p s. exact (via_tx_mem_all_memory p s). Qed.
+Theorem C09_oracle_tx_memory_refuted :
+  failed (res_of (exec MTxMem oracle_tx oracle_tx_bad_state)) = true /\
+  tr_of (exec MTxMem oracle_tx oracle_tx_bad_state) = ["oracle-mem"%string].
+Proof. exact oracle_tx_memory_not_rolled_back. Qed.
+Theorem C09_oracle_tx_ignored_message_refuted :
+  failed (res_of (exec MTxMem oracle_tx oracle_tx_ignored_state)) = true /\
+  tr_of (exec MTxMem oracle_tx oracle_tx_ignored_state) = ["oracle-mem"%string].
+Proof. exact oracle_tx_ignored_message_leaves_trace. Qed.
+Theorem C09_oracle_tx_first_message_atomic : forall s, fget "fail.idx" s <= 0 -> fget "fail.ignored" s = 0 ->
+  failed (res_of (exec MTxMem oracle_tx s)) = true -> tr_of (exec MTxMem oracle_tx s) = [].
+Proof. exact oracle_tx_first_message. Qed.
 Print Assumptions C09_withdraw_nst_nocache_refuted.
 
 (* non-vacuity: states that satisfy the invariants and in which the calls fail / succeed *)
